@@ -216,11 +216,11 @@ def vrewrite_bin():
     return out
 
 
-def yield_overlay(work, rel, funcs):
-    """the `-yield` rewrite pass (DESIGN.md E5) on one working-tree file"""
+def yield_overlay(work, rel, funcs, kinds="", src=None):
+    """the `-yield` rewrite pass (DESIGN.md E5) on one working-tree file (or on an already rewritten copy `src`)"""
     p = work.path("yield_" + rel.replace("/", "_"))
     with open(p, "w") as f:
-        subprocess.check_call([vrewrite_bin(), "-file", os.path.join(REPO, rel), "-funcs", ",".join(funcs)], stdout=f)
+        subprocess.check_call([vrewrite_bin(), "-file", src or os.path.join(REPO, rel), "-funcs", ",".join(funcs), "-kinds", kinds], stdout=f)
     return {rel: p}
 
 
